@@ -66,6 +66,57 @@ Definition dpiece_okb (p : dpiece) : bool :=
   | DSub inner => forallb dinner_okb inner
   end.
 
+
+(* ---- executable check for the general tag opener -------------------------------------------------------------- *)
+Fixpoint name_run_b (eq : bool) (n : list Z) (nxt : Z) : bool :=
+  match n with
+  | [] => true
+  | c :: t => negb (name_stop eq c (match t with [] => nxt | c1 :: _ => c1 end)) && name_run_b eq t nxt
+  end.
+
+Definition name_end_b (eq : bool) (l : list Z) : bool :=
+  match l with
+  | [] => false
+  | c :: t => name_stop eq c (getz t 0) && (negb ((c =? 47) || (c =? 63)) || match t with [] => false | _ => true end)
+  end.
+
+Fixpoint next_not_eq_b (l : list Z) : bool :=
+  match l with
+  | [] => false
+  | c :: t => if is_ws c then next_not_eq_b t else negb (c =? 61)
+  end.
+
+Definition nil_b (l : list Z) : bool := match l with [] => true | _ => false end.
+
+Definition gattr_okb (a : gattr) (rest : list Z) : bool :=
+  all_ws_b (g_lead a) &&
+  match g_val a with
+  | VNone => negb (nil_b (g_name a)) && name_run_b true (g_name a) (getz rest 0) && name_end_b true rest && next_not_eq_b rest
+  | VUnq w1 w2 x =>
+      all_ws_b w1 && all_ws_b w2 && (negb (nil_b (g_name a)) || nil_b w1) &&
+      name_run_b true (g_name a) (getz (w1 ++ [61]) 0) &&
+      name_run_b false x (getz rest 0) && name_end_b false rest &&
+      negb (is_ws (getz (x ++ rest) 0)) && negb (getz (x ++ rest) 0 =? 34) && negb (getz (x ++ rest) 0 =? 39)
+  | VQuo w1 w2 q x =>
+      all_ws_b w1 && all_ws_b w2 && (negb (nil_b (g_name a)) || nil_b w1) &&
+      name_run_b true (g_name a) (getz (w1 ++ [61]) 0) &&
+      ((q =? 34) || (q =? 39)) && forallb (fun c => negb (c =? q) && negb (c =? 0)) x
+  end.
+
+Fixpoint gattrs_okb (l : list gattr) (tail : list Z) : bool :=
+  match l with
+  | [] => true
+  | a :: t => gattr_okb a (render_gattrs t ++ tail) && gattrs_okb t tail
+  end.
+
+Definition closer_tyb (k : ttype) : bool :=
+  match k with TStartTagClose | TStartTagCloseVoid | TStartTagClosePI => true | _ => false end.
+
+Definition itag_okb (pi : bool) (n : list Z) (gs : list gattr) (ws : list Z) (k : ttype) : bool :=
+  is_name_b false n && (pi || negb (getz n 0 =? 33)) && all_ws_b ws && closer_tyb k &&
+  gattrs_okb gs (ws ++ closer_bytes k) && name_end_b false (render_gattrs gs ++ ws ++ closer_bytes k).
+
+
 Definition item_okb (it : item) : bool :=
   match it with
   | IText t => match t with [] => false | _ => true end && forallb (fun c => negb (c =? 60) && negb (c =? 0)) t
@@ -75,7 +126,7 @@ Definition item_okb (it : item) : bool :=
   | IPI t attrs ws => is_name_b false t && forallb attr_okb attrs && all_ws_b ws
   | IStart n attrs ws void => is_name_b false n && negb (getz n 0 =? 33) && forallb attr_okb attrs && all_ws_b ws
   | IEnd n ws => is_name_b false n && all_ws_b ws
-  | ITag _ _ _ _ _ => false   (* the general tag opener is not covered by the executable check *)
+  | ITag pi n gs ws k => itag_okb pi n gs ws k
   end.
 
 Fixpoint no_adjacent_text_b (l : list item) : bool :=
@@ -139,9 +190,70 @@ Proof.
   apply forallb_Forall. apply dinner_okb_sound.
 Qed.
 
+Lemma name_run_b_sound eq n nxt : name_run_b eq n nxt = true -> name_run eq n nxt.
+Proof.
+  induction n as [|c t IH]; cbn [name_run_b name_run]; [auto|]. intros H. b2p. split; [assumption|apply IH; assumption].
+Qed.
+
+Lemma name_end_b_sound eq l : name_end_b eq l = true -> name_end eq l.
+Proof.
+  destruct l as [|c t]; [discriminate|]. cbn [name_end_b]. intros H. b2p. exists c, t.
+  split; [reflexivity|]. split; [assumption|]. intros Hc Ht. subst t.
+  match goal with H : _ || _ = true |- _ => rewrite orb_false_r in H end. lia.
+Qed.
+
+Lemma next_not_eq_b_sound l : next_not_eq_b l = true -> next_not_eq l.
+Proof.
+  induction l as [|c t IH]; [discriminate|]. cbn [next_not_eq_b]. destruct (is_ws c) eqn:E.
+  - intros H. destruct (IH H) as (w & c2 & t2 & -> & H1 & H2 & H3). exists (c :: w), c2, t2.
+    split; [reflexivity|]. split; [constructor; assumption|]. auto.
+  - intros H. exists [], c, t. split; [reflexivity|]. split; [constructor|]. split; [exact E|lia].
+Qed.
+
+Lemma nil_b_false l : negb (nil_b l) = true -> l <> [].
+Proof. destruct l; [discriminate|discriminate]. Qed.
+
+Lemma nil_imp name w1 : negb (nil_b name) || nil_b w1 = true -> name = [] -> w1 = [].
+Proof. intros H ->. cbn in H. destruct w1; [reflexivity|discriminate]. Qed.
+
+Lemma gattr_okb_sound a rest : gattr_okb a rest = true -> gattr_ok a rest.
+Proof.
+  unfold gattr_okb, gattr_ok. intros H. apply andb_true_iff in H. destruct H as (Hl & Hv).
+  split; [apply all_ws_b_sound; exact Hl|]. destruct (g_val a) as [|w1 w2 x|w1 w2 q x].
+  - repeat (apply andb_true_iff in Hv; destruct Hv as (Hv & ?)).
+    split; [apply nil_b_false; assumption|]. split; [apply name_run_b_sound; assumption|].
+    split; [apply name_end_b_sound; assumption|apply next_not_eq_b_sound; assumption].
+  - repeat (apply andb_true_iff in Hv; destruct Hv as (Hv & ?)).
+    split; [apply all_ws_b_sound; assumption|]. split; [apply all_ws_b_sound; assumption|].
+    split; [apply nil_imp; assumption|]. split; [apply name_run_b_sound; assumption|].
+    split; [apply name_run_b_sound; assumption|]. split; [apply name_end_b_sound; assumption|].
+    b2p. repeat split; try assumption; lia.
+  - repeat (apply andb_true_iff in Hv; destruct Hv as (Hv & ?)).
+    split; [apply all_ws_b_sound; assumption|]. split; [apply all_ws_b_sound; assumption|].
+    split; [apply nil_imp; assumption|]. split; [apply name_run_b_sound; assumption|].
+    split; [lia|]. match goal with H : forallb _ x = true |- _ => revert H end. apply forallb_Forall. intros c Hc. lia.
+Qed.
+
+Lemma gattrs_okb_sound l tail : gattrs_okb l tail = true -> gattrs_ok l tail.
+Proof.
+  induction l as [|a t IH]; cbn [gattrs_okb gattrs_ok]; [auto|]. intros H. b2p.
+  split; [apply gattr_okb_sound; assumption|apply IH; assumption].
+Qed.
+
+Lemma itag_okb_sound pi n gs ws k : itag_okb pi n gs ws k = true -> item_ok (ITag pi n gs ws k).
+Proof.
+  unfold itag_okb. cbn [item_ok]. intros H. repeat (apply andb_true_iff in H; destruct H as (H & ?)).
+  split; [apply is_name_b_sound; assumption|]. split.
+  { intros ->. cbn [orb] in *. lia. }
+  split; [apply all_ws_b_sound; assumption|]. split.
+  { unfold is_closer_ty. destruct k; try discriminate; auto. }
+  split; [apply gattrs_okb_sound; assumption|apply name_end_b_sound; assumption].
+Qed.
+
 Lemma item_okb_sound it : item_okb it = true -> item_ok it.
 Proof.
-  destruct it as [t|b|b|ps|n attrs ws|n attrs ws void|n ws|pi n gs ws k]; cbn [item_okb item_ok]; intros H; try discriminate; b2p.
+  destruct it as [t|b|b|ps|n attrs ws|n attrs ws void|n ws|pi n gs ws k]; [| | | | | | |apply itag_okb_sound];
+    cbn [item_okb item_ok]; intros H; b2p.
   - split; [destruct t; discriminate|]. match goal with H : forallb _ t = true |- _ => revert H end.
     apply forallb_Forall. intros x Hx. lia.
   - split; [apply nz_b_sound; assumption|apply no_occ_b_sound; assumption].
